@@ -184,6 +184,53 @@ def main():
                     f"{r['desc']}({float(env.b2f([r['x'][i]])[0])}) = {float(env.b2f([r['y'][i]])[0])}: not a power of two",
                     {"config": r["cfg"], "x_bits": r["x"][i], "y_bits": r["y"][i]})
   rep.note(model_vs_impl=dict(configs=len(cfgs), agree_and_power_of_two=n_ok, agree_but_absorbed=n_abs))
+  # ---- the rounding step exactly: the float32 log is an oracle, but WHAT the code does with the value the kernel returned is not.
+  # The harness asks the same TensorFlow kernels for l = log(x') / log 2 on the filtered magnitude x' (epsilon floor, max_value clamp)
+  # and Coq decides whether the implementation's exponent is clip(round-half-even(l)) resp. clip(floor(l)) -- inside the tolerance
+  # band of the relational checker too, where an exact tie of l decides between two exponents.
+  otexts, oitems = [], []
+  eps_f = np.float32(1e-7)
+  for r in results:
+    c = r["cfg"]
+    codes = np.asarray(r.get("codes", []))
+    if codes.size == 0:
+      continue
+    x = env.b2f(r["x"]).astype(np.float32)
+    y = env.b2f(r["y"]).astype(np.float32)
+    mag = np.abs(x) if c["fam"] == "po2" else x
+    sel = np.where((codes == 0) & np.isfinite(x) & (mag >= eps_f) & (mag >= np.float32(2.0 ** -126)))[0]
+    if sel.size == 0:
+      continue
+    xf = mag[sel]
+    if c["mv"] is not None:
+      xf = np.where(xf >= np.float32(c["mv"]), np.float32(c["mv"]), xf)
+    lg = (tf.keras.backend.log(tf.constant(xf, dtype=tf.float32)) / np.log(2.0)).numpy()
+    m_, ex_ = np.frexp(np.abs(y[sel]).astype(np.float64))
+    mn, mx = exps(c)
+    mode = "LRnd" if c["mode"] == "rnd" else "LFloor"
+    for j, i in enumerate(sel):
+      if m_[j] != 0.5:
+        continue
+      otexts.append(f"chk_exp_from_log {mode} ({mn}) {mx} {int(env.f2b([lg[j]])[0])} ({int(ex_[j]) - 1})")
+      oitems.append((r["desc"], r["x"][i], float(x[i]), float(lg[j]), int(ex_[j]) - 1))
+  n_or = 0
+  if otexts:
+    SHO = 3000
+    oshards = [(f"{PROP}_o_{k // SHO:03d}", HEADER + "Eval vm_compute in [" + "; ".join(otexts[k:k + SHO]) + "].\n") for k in range(0, len(otexts), SHO)]
+    oouts = vlib.coq_eval_many(oshards)
+    flat = []
+    for k in range(0, len(otexts), SHO):
+      flat += oouts[f"{PROP}_o_{k // SHO:03d}"][0]
+    n_tie = 0
+    for (desc, xb_, xv, lv, e_), code in zip(oitems, flat):
+      if abs(lv - np.floor(lv) - 0.5) == 0.0:
+        n_tie += 1
+      if code != 0:
+        rep.violation(f"exponent-not-rounding-of-returned-log-{desc}", f"{desc}({xv}): the float32 kernels return log2 = {lv!r} for the filtered magnitude, the output's exponent is {e_}, "
+                      f"which is not clip({'round-half-even' if 'rnd' in desc else 'floor'}(log2)) of that value", {"config": desc, "x_bits": xb_, "log2": lv, "exponent": e_})
+      else:
+        n_or += 1
+    rep.note(rounding_step_vs_returned_log=dict(cases=len(oitems), agree=n_or, exact_ties_of_the_returned_log=n_tie))
   rep.sample({"config": results[0]["desc"], "x_bits": results[0]["x"][:4], "y_bits": results[0]["y"][:4]})
   # direct property evaluation on the implementation's outputs
   n_mono = n_idem = 0
